@@ -211,6 +211,45 @@ func Run(r *ev.Run) {
 		}
 		r.Eval("bad-spec:"+bad.key, "refused")
 	}
+	// round 14: encoding READS its input - the fields of a ConfigSpec (and the arguments of NewConfig and ConfigList) may be
+	// windows of larger buffers the caller goes on using: the octets behind each window (its spare capacity) and the windows
+	// themselves are what they were after the call, for every window length and several amounts of spare capacity; the config
+	// built from the NEXT window of the same buffer parses back with its own name
+	for _, spare := range []int{0, 1, 2, 3, 16, 300} {
+		for _, nl := range []int{1, 9, 63, 253} {
+			name := dnsName(nl)
+			buf := append(append([]byte(name), bytes.Repeat([]byte{0xa5}, spare)...), []byte("next.example")...)
+			keybuf := append(slices.Clone(pub), bytes.Repeat([]byte{0x5a}, spare+7)...)
+			suites := append(slices.Clone(sl[1%len(sl)]), ech.CipherSuite{KDF: 0x7777, AEAD: 0x7777})
+			nsu := len(suites) - 1
+			before, beforeKey := slices.Clone(buf), slices.Clone(keybuf)
+			spec := ech.ConfigSpec{Version: 0xfe0d, ID: 9, KEM: 0x20, PublicKey: keybuf[:len(pub)], CipherSuites: suites[:nsu], PublicName: buf[:nl]}
+			got, err := spec.Bytes()
+			want := tlsref.BuildConfig(9, pub, refSuites(suites[:nsu]), name)
+			oc := "encoders leave the caller's memory alone"
+			if err != nil || !bytes.Equal(got, want) {
+				oc = "window not encoded"
+				r.Violation("encode-window", fmt.Sprintf("a spec whose fields are windows of larger buffers (name %d octets, %d spare) is not encoded per section 4 (%v)", nl, spare, err), nil)
+			}
+			l1, _ := ech.ConfigList([]ech.Config{got})
+			_, c2, err2 := ech.NewConfig(7, buf[:nl])
+			l2, _ := ech.ConfigList([]ech.Config{c2})
+			if !bytes.Equal(buf, before) || !bytes.Equal(keybuf, beforeKey) || suites[nsu] != (ech.CipherSuite{KDF: 0x7777, AEAD: 0x7777}) {
+				oc = "encoder wrote to the caller's memory"
+				r.Violation("encoder-writes-to-callers-memory", fmt.Sprintf("after ConfigSpec.Bytes / NewConfig / ConfigList on a public name that is the first %d octets of a buffer with %d more octets behind it: the buffer reads %q, before %q; key buffer changed: %v; suite behind the window: %v", nl, len(buf)-nl, buf, before, !bytes.Equal(keybuf, beforeKey), suites[nsu]), nil)
+			}
+			if spare == 0 {
+				// the next window of the same buffer
+				_, c3, err3 := ech.NewConfig(8, buf[nl:])
+				if sp, err := c3.Spec(); err3 != nil || err != nil || string(sp.PublicName) != "next.example" {
+					oc = "next window spoiled"
+					r.Violation("encoder-writes-to-callers-memory:next-window", fmt.Sprintf("the config built from the next window of the buffer carries the name %q (%v %v)", sp.PublicName, err3, err), nil)
+				}
+			}
+			_, _, _ = l1, l2, err2
+			r.Eval(fmt.Sprintf("windows:%d:%d", spare, nl), oc)
+		}
+	}
 	// non-DNS byte strings as names (codec level only) and invalid lengths
 	for _, nl := range []int{1, 255} {
 		name := string(tlsref.DetBytes("rawname", nl))
